@@ -78,10 +78,41 @@ fn headers_sizes_on_wire(n: &Net, id: u64, side: u8) -> Result<Vec<u64>, String>
     fr.iter().filter(|f| f.ty == frames::HEADERS).map(|f| qpack::decode(&f.payload).map(|fs| qpack::section_size(&fs)).map_err(|e| e.to_string())).collect()
 }
 
+/// read the body (results into rec[k].other on failure); evaluates to false if it failed
+macro_rules! c10_body {
+    ($s:expr, $rec:expr, $k:expr) => {{
+        let mut ok = true;
+        loop {
+            match $s.recv_data().await {
+                Ok(Some(_)) => {}
+                Ok(None) => break,
+                Err(e) => {
+                    $rec.borrow_mut()[$k].other = Some(Err(sout(&e)));
+                    ok = false;
+                    break;
+                }
+            }
+        }
+        ok
+    }};
+}
+macro_rules! c10_trailers {
+    ($s:expr, $rec:expr, $k:expr) => {{
+        let t = $s.recv_trailers().await;
+        $rec.borrow_mut()[$k].trailers = Some(t.map(|t| t.is_some()).map_err(|e| sout(&e)));
+    }};
+}
+
 // -------------------------------------------------------------------------------- receive side
 
 fn run_receive(ctx: &RunCtx) -> RunOut {
     let role_server = draw(2) == 0;
+    // the stream under test may be split() by the application: 0 never, 1 before anything is received on it,
+    // 2 after the body and before the trailers (the halves must keep enforcing the endpoint's own limit)
+    let split_mode = draw(3);
+    if split_mode != 0 {
+        obs::count("probe.receive_on_split_stream");
+    }
     let limit = *pick(&LIMITS);
     let peer_limit = *pick(&[DEFAULT, 1000, 42, 41, 0]); // what the peer advertises (matters for the 431 answer)
     let in_trailers = chance(1, 3);
@@ -163,20 +194,31 @@ fn run_receive(ctx: &RunCtx) -> RunOut {
                                 Err(e) => rec.borrow_mut()[k].headers = Some(Err(sout(&e))),
                                 Ok((_r, mut s)) => {
                                     rec.borrow_mut()[k].headers = Some(Ok(()));
-                                    loop {
-                                        match s.recv_data().await {
-                                            Ok(Some(_)) => {}
-                                            Ok(None) => break,
-                                            Err(e) => {
-                                                rec.borrow_mut()[k].other = Some(Err(sout(&e)));
-                                                return;
-                                            }
+                                    let resp = http::Response::builder().status(200).body(()).unwrap();
+                                    if split_mode == 1 {
+                                        let (mut tx, mut rx) = s.split();
+                                        if !c10_body!(rx, rec, k) {
+                                            return;
                                         }
+                                        c10_trailers!(rx, rec, k);
+                                        let _ = tx.send_response(resp).await;
+                                        let _ = tx.finish().await;
+                                    } else if split_mode == 2 {
+                                        if !c10_body!(s, rec, k) {
+                                            return;
+                                        }
+                                        let (mut tx, mut rx) = s.split();
+                                        c10_trailers!(rx, rec, k);
+                                        let _ = tx.send_response(resp).await;
+                                        let _ = tx.finish().await;
+                                    } else {
+                                        if !c10_body!(s, rec, k) {
+                                            return;
+                                        }
+                                        c10_trailers!(s, rec, k);
+                                        let _ = s.send_response(resp).await;
+                                        let _ = s.finish().await;
                                     }
-                                    let t = s.recv_trailers().await;
-                                    rec.borrow_mut()[k].trailers = Some(t.map(|t| t.is_some()).map_err(|e| sout(&e)));
-                                    let _ = s.send_response(http::Response::builder().status(200).body(()).unwrap()).await;
-                                    let _ = s.finish().await;
                                 }
                             }
                         });
@@ -231,23 +273,38 @@ fn run_receive(ctx: &RunCtx) -> RunOut {
                 };
                 let rec = rec.clone();
                 exec::spawn(format!("req{k}"), async move {
+                    if split_mode == 1 {
+                        let (mut tx, mut rx) = s.split();
+                        let _ = tx.finish().await;
+                        match rx.recv_response().await {
+                            Err(e) => rec.borrow_mut()[k].headers = Some(Err(sout(&e))),
+                            Ok(_) => {
+                                rec.borrow_mut()[k].headers = Some(Ok(()));
+                                if c10_body!(rx, rec, k) {
+                                    c10_trailers!(rx, rec, k);
+                                }
+                            }
+                        }
+                        std::future::pending::<()>().await;
+                        drop(tx);
+                        return;
+                    }
                     let _ = s.finish().await;
                     match s.recv_response().await {
                         Err(e) => rec.borrow_mut()[k].headers = Some(Err(sout(&e))),
                         Ok(_) => {
                             rec.borrow_mut()[k].headers = Some(Ok(()));
-                            loop {
-                                match s.recv_data().await {
-                                    Ok(Some(_)) => {}
-                                    Ok(None) => break,
-                                    Err(e) => {
-                                        rec.borrow_mut()[k].other = Some(Err(sout(&e)));
-                                        return;
-                                    }
-                                }
+                            if !c10_body!(s, rec, k) {
+                                return;
                             }
-                            let t = s.recv_trailers().await;
-                            rec.borrow_mut()[k].trailers = Some(t.map(|t| t.is_some()).map_err(|e| sout(&e)));
+                            if split_mode == 2 {
+                                let (tx, mut rx) = s.split();
+                                c10_trailers!(rx, rec, k);
+                                std::future::pending::<()>().await;
+                                drop(tx);
+                            } else {
+                                c10_trailers!(s, rec, k);
+                            }
                         }
                     }
                 });
@@ -645,7 +702,7 @@ impl Check for C10 {
     fn meta(&self) -> Meta {
         Meta {
             level: "exploration",
-            rule: "receive: configured limit L over {0,1,41,42,43,100,300,1000,16383,16384,2^30,2^62-1} x field sections (request, response, trailers; reference-encoded with drawn representations) whose RFC 9114 4.2.2 size sweeps L-2..L+2, L/2 and L+k x both roles x the peer's own advertised limit over {default,1000,42,41,0} (decides the 431 answer) x a small neighbour message; send: peer-advertised limit P over the same grid x sections (request, response, trailers) sweeping P-2..P+2 x both roles x the peer's SETTINGS written after 0/3/10/40 scheduler turns (before, during or after the send call; send_request additionally made to wait for stream credit) ; chunkings, task order drawn; non-trivial = the send/receive under test happened; distinct = distinct schedule signatures",
+            rule: "receive: configured limit L over {0,1,41,42,43,100,300,1000,16383,16384,2^30,2^62-1} x field sections (request, response, trailers; reference-encoded with drawn representations) whose RFC 9114 4.2.2 size sweeps L-2..L+2, L/2 and L+k x both roles x the stream used whole, split before anything is received on it, or split between body and trailers x the peer's own advertised limit over {default,1000,42,41,0} (decides the 431 answer) x a small neighbour message; send: peer-advertised limit P over the same grid x sections (request, response, trailers) sweeping P-2..P+2 x both roles x the peer's SETTINGS written after 0/3/10/40 scheduler turns (before, during or after the send call; send_request additionally made to wait for stream credit) ; chunkings, task order drawn; non-trivial = the send/receive under test happened; distinct = distinct schedule signatures",
             real: &["h3 client/server send paths (send_request, send_response, send_trailers) and receive paths (resolve_request incl. the automatic 431, recv_response, recv_trailers)", "h3 qpack stateless codec size accounting", "settings application via the connection driver"],
             stub: &["QUIC transport (SimQuic, with a first-write probe that samples the applied peer settings)", "executor (simexec)", "reference peer (script, reference codecs)", "applications"],
             assumptions: &["the limit in force for a send is the applied peer setting at the moment h3 hands the HEADERS frame to the transport (its send_data call, sampled by the simulator); SETTINGS that are applied while that write is blocked cannot be honoured any more; for a refusal it is the value after the call (settings only ever change from the default to the advertised value)", "limits above 200000 are only exercised on the accept side"],
